@@ -26,6 +26,8 @@ def c4(ctx):
 def c5(ctx):
     views.equality(ctx)
     serial.smchart_writer_fields(ctx)
+    serial.ssc_skip_is_what_is_written_last(ctx)
+    serial.writer_item_loop(ctx, serial.BASE_SERIALIZE, notes_exempt=False)
 
 
 CLAUSES = [
